@@ -80,6 +80,46 @@ func containsForest(nl *sbom.NodeList) bool {
 	return true
 }
 
+// containsAcyclic reports whether the contains edges among present nodes form no cycle (self loops included).
+func containsAcyclic(nl *sbom.NodeList) bool {
+	ids := gen.IDSet(nl)
+	out := map[string][]string{}
+	for _, e := range nl.Edges {
+		if e.Type != sbom.Edge_contains || !ids.Has(e.From) {
+			continue
+		}
+		for _, t := range e.To {
+			if ids.Has(t) {
+				out[e.From] = append(out[e.From], t)
+			}
+		}
+	}
+	state := map[string]int{}
+	var visit func(u string) bool
+	visit = func(u string) bool {
+		switch state[u] {
+		case 1:
+			return false
+		case 2:
+			return true
+		}
+		state[u] = 1
+		for _, v := range out[u] {
+			if !visit(v) {
+				return false
+			}
+		}
+		state[u] = 2
+		return true
+	}
+	for id := range ids {
+		if !visit(id) {
+			return false
+		}
+	}
+	return true
+}
+
 // checkSPDXOutput decodes the output as plain JSON and compares it with the document.
 func checkSPDXOutput(c *core.C, d *sbom.Document, out []byte, det map[string]any) bool {
 	var top jmap
@@ -293,6 +333,43 @@ func checkCDXOutput(c *core.C, d *sbom.Document, f formats.Format, out []byte, d
 				}
 				c.Violatef("cdx-containment-lost", det, "contains edge %q -> %q is not expressed by nesting in the %s output (component is %s)", par, child, f, where)
 				return false
+			}
+		}
+	}
+	// containment that is not a forest but has no cycle (a component contained by several others): every contains
+	// relationship must still be expressed - the component appears below each of its containers
+	if !forest && containsAcyclic(d.NodeList) {
+		isContained := map[string]bool{}
+		for _, e := range d.NodeList.Edges {
+			if e.Type == sbom.Edge_contains {
+				for _, t := range e.To {
+					isContained[t] = true
+				}
+			}
+		}
+		if !isContained[root] {
+			c.Cover("containment-dag-judged")
+			for _, e := range d.NodeList.Edges {
+				// containment by the root has no notation of its own (a top-level position); for a component that
+				// is also nested elsewhere it is not judged
+				if e.Type != sbom.Edge_contains || isAutoID(e.From) || !ids.Has(e.From) || e.From == root {
+					continue
+				}
+				for _, child := range e.To {
+					if isAutoID(child) || !ids.Has(child) || child == e.From {
+						continue
+					}
+					ok := false
+					for _, cc := range byRef[child] {
+						if cc.parent == e.From {
+							ok = true
+						}
+					}
+					if !ok {
+						c.Violatef("cdx-containment-lost:shared-component", det, "contains edge %q -> %q (a component with several containers) is not expressed by nesting in the %s output", e.From, child, f)
+						return false
+					}
+				}
 			}
 		}
 	}
